@@ -25,12 +25,74 @@ def run(fx, rep, tier):
     width_ok = rule_width(fx, rep)
     extra = fen_classes(fx, width_ok)
     # the reader's input is arbitrary text: "exactly one king per side" (believed for searched positions) does not hold here
+    mat_ok, mat_why = material_guard(fx)
+    rep.sample({"rule": "C06-CONE", "material_guard": mat_ok, "detail": mat_why})
+    extra = [("fen-material-bound", lambda site, fx: C.c_opimpl(site, fx) and mat_ok,
+              "evaluation accumulators summed over a board the reader has limited to 16 men a side (within C16-BOUND's material)", "checked"),
+             ("accumulators-need-material-bound", lambda site, fx: C.c_opimpl(site, fx),
+              "the board comes from arbitrary text: without a limit on the men per side the accumulator sums overflow", "deny")] + list(extra)
     extra = [("no-king-invariant-for-text", lambda site, fx: site.family == "panic" and C.in_fn(site, "Bitboard::single"),
               "Bitboard::single asserts exactly one bit; a FEN may describe zero or several kings", "deny")] + list(extra)
     pC04.run_cone(fx, rep, "C06-CONE", [parse.name], set(), 30, extra_classes=extra,
                   floors={"one_of-match-exhaustive": 4, "digit-parse": 1, "assert-64-by-width": 1, "array-64-by-width": 2})
     rule_tables(fx, rep)
     rule_fields(fx, rep)
+
+
+def material_guard(fx):
+    """Does the reader refuse boards with more than 16 men on a side before building the Game? (ok, detail)"""
+    fp = fx.one("fen::fen_parser::fen_parser")
+    fs = [bb for bb, t in fp.calls_to("Game::from_state")]
+    if len(fs) != 1:
+        return False, "no single Game::from_state call in fen_parser"
+    players_in_fn = {enum_in(x, "Player") for bb, j, st in fp.stmts() for x in walk(fp.expr(st["rv"].get("op"), expand_named=True, at=bb) if st.get("rv", {}).get("k") == "use" else ())
+                     if isinstance(x, tuple)} if False else set()
+    for bb, j, st in fp.stmts():
+        rv = st.get("rv")
+        if rv and rv["k"] == "agg" and rv.get("agg") == "adt" and norm(rv["adt"]).endswith("player::Player"):
+            players_in_fn.add(rv["variant"])
+        if rv and rv["k"] == "agg" and rv.get("agg") == "array":
+            for o in rv["ops"]:
+                e = deep_strip(fp.expr(o, expand_named=True, at=bb))
+                if isinstance(e, tuple) and e and e[0] == "agg" and "Player::" in str(e[1]):
+                    players_in_fn.add(str(e[1]).split("::")[-1])
+    best = None
+    for a in sorted(fp.live_blocks()):
+        from facts import switch_edge_conds
+        for (tgt, e, pol, v) in switch_edge_conds(fp, a):
+            co = cmp_op(deep_strip(e)) if isinstance(deep_strip(e), tuple) else None
+            if not co or pol is None:
+                continue
+            x, y = deep_strip(co[1]), deep_strip(co[2])
+            op = co[0]
+            if isinstance(x, tuple) and x[0] == "const" and not (isinstance(y, tuple) and y[0] == "const"):
+                x, y = y, x
+                op = {"Lt": "Gt", "Gt": "Lt", "Le": "Ge", "Ge": "Le"}.get(op, op)
+            if not (isinstance(y, tuple) and y[0] in ("const", "constpath")):
+                continue
+            k = y[1] if y[0] == "const" else next((cv.get("int") for kk, cv in fx.consts.items() if norm(kk) == y[1]), None)
+            if not isinstance(k, int) or not (find_calls(x, "Bitboard::count") and find_calls(x, "Board::occupancy_for")):
+                continue
+            # the edge on which the count is too large
+            if not pol:
+                op = {"Lt": "Ge", "Ge": "Lt", "Gt": "Le", "Le": "Gt"}.get(op, op)
+            if op not in ("Gt", "Ge"):
+                continue
+            allowed = k if op == "Gt" else k - 1
+            # that edge must end in Err without building the game; the test itself must precede the construction
+            region = fp.reachable(tgt, removed_blocks=[a])
+            errs = any(st["k"] == "assign" and st["lhs"]["l"] == 0 and st.get("rv", {}).get("variant") == "Err" for r in region for st in fp.blocks[r]["stmts"])
+            # (a test inside a `for side in [White, Black]` loop does not dominate the code after the loop, so precedence is
+            # required instead: the construction is reachable from the test and not the other way round)
+            if errs and fs[0] not in region and fs[0] in fp.reachable(a) and a not in fp.reachable(fs[0]):
+                best = allowed if best is None else max(best, allowed)
+    if best is None:
+        return False, "no test of the number of men per side (count of occupancy_for(side)) that rejects the board before Game::from_state"
+    if best > 16:
+        return False, f"the reader accepts up to {best} men a side (more than 16)"
+    if not {"White", "Black"} <= players_in_fn:
+        return False, "the men-per-side test does not visibly cover both colours"
+    return True, f"at most {best} men a side, both colours"
 
 
 # ---- C06-FIELDS ----------------------------------------------------------------------------
@@ -554,6 +616,10 @@ def rule_tables(fx, rep):
 P = "src/chess/fen/fen_parser.rs"
 W = "src/chess/fen/fen_writer.rs"
 MUTANTS = [
+    {"name": "men-per-side limit removed from the reader (original defect)", "expect": "C06-CONE",
+     "edits": [("src/chess/fen/fen_parser.rs", "        if board.occupancy_for(side).count() > MAX_MEN_PER_SIDE {", "        if board.occupancy_for(side).count() > 64 {")]},
+    {"name": "men-per-side limit raised to 32", "expect": "C06-CONE",
+     "edits": [("src/chess/fen/fen_parser.rs", "const MAX_MEN_PER_SIDE: u8 = 16;", "const MAX_MEN_PER_SIDE: u8 = 32;")]},
     {"name": "reader assumes exactly one king per side (seed C06-2)", "expect": "C06-CONE",
      "edits": [("src/chess/fen/fen_parser.rs", "    let plies = plies_from_fullmove_number(fullmove_number, player);\n", "    let plies = plies_from_fullmove_number(fullmove_number, player);\n    let castle_rights = if board.king(Player::White).single() == crate::chess::square::squares::king_start(Player::White) { castle_rights } else { castle_rights };\n")]},
     {"name": "width check removed (original defect)", "expect": "C06-",
